@@ -11,7 +11,7 @@ import impl
 import modelio as M
 import popgen
 
-PRELUDE = "From GettsimModel Require Import Groupings CoupleSpec.\nOpen Scope Z_scope.\n"
+PRELUDE = "From GettsimModel Require Import Groupings CoupleSpec FgSpec.\nOpen Scope Z_scope.\n"
 
 
 def obligations(tier):
@@ -266,7 +266,7 @@ def u3(ctx, res):
         pl = "[" + "; ".join(coq_person(x) for x in qs) + "]"
         exprs.append(f"json_val (VList (map (fun l => VList (map VInt l)) (let ps := {pl} in let fg := fg_id ps in "
                      f"[eg_id ps; ehe_id ps; sn_id_tot ps; fg; bg_id fg ps; "
-                     f"map (fun b : bool => if b then 1 else 0) [couple_wf_b einst ps; couple_wf_b ehep ps; flags_agree_b ps]])))")
+                     f"map (fun b : bool => if b then 1 else 0) [couple_wf_b einst ps; couple_wf_b ehep ps; flags_agree_b ps; fg_wf_b ps]])))")
     import concurrent.futures as cf
 
     shards = [list(range(i, len(exprs), 8)) for i in range(8)]
@@ -285,11 +285,11 @@ def u3(ctx, res):
                 want = [got["eg_id"], got["ehe_id"], got["sn_id"] or [], got["fg_id"], got["bg_id"]]
                 # hypotheses of the unbounded theorems (CoupleSpec.couple_wf, flags_agree) on this valid table
                 hyp, r = r[5], r[:5]
-                stats["unbounded_theorem_hypotheses_hold"] = stats.get("unbounded_theorem_hypotheses_hold", 0) + (hyp == [1, 1, 1])
-                if hyp != [1, 1, 1]:
+                stats["unbounded_theorem_hypotheses_hold"] = stats.get("unbounded_theorem_hypotheses_hold", 0) + (hyp == [1, 1, 1, 1])
+                if hyp != [1, 1, 1, 1]:
                     stats.setdefault("hypotheses_fail_examples", [])
                     if len(stats["hypotheses_fail_examples"]) < 3:
-                        stats["hypotheses_fail_examples"].append(dict(persons=qs, couple_wf_einst_ehep_flags=hyp))
+                        stats["hypotheses_fail_examples"].append(dict(persons=qs, couple_wf_einst_ehep_flags_fg_wf=hyp))
                 if r != want:
                     stats["differences"] += 1
                     if stats["differences"] <= 3:
